@@ -1,7 +1,10 @@
 // Positive/negative examples for the zero-instance rules R-C16-6 (noexcept barrier) and R-C16-7 (parser state that
 // survives an exception).  Parsed with -fsyntax-only on every run of the C16 check; never linked or run.  The rule engine must
 // report `barrier` and `counted`, and must not report `guarded`, otherwise the check is ANALYSIS-BROKEN.
+#include <cstddef>
+#include <cstring>
 #include <stdexcept>
+#include <string>
 
 namespace rkverif_c16 {
   static void fail(const char *s)
@@ -56,5 +59,42 @@ namespace rkverif_c16 {
   {
     barrier(s);
     return counted(s) + guarded(s);
+  }
+
+  // ---- R-C16-9: writes into self-allocated buffers
+  std::string copy_off_by_one(const char *begin, const char *end)      // must be reported: terminator at small[64] when len == 64
+  {
+    const size_t len = end - begin;
+    char small[64];
+    char *mem = (len <= sizeof(small)) ? small : new char[len + 1];
+    memcpy(mem, begin, len);
+    mem[len] = 0;
+    std::string s = mem;
+    if (mem != small)
+      delete[] mem;
+    return s;
+  }
+
+  std::string copy_ok(const char *begin, const char *end)              // must not be reported
+  {
+    const size_t len = end - begin;
+    char small[64];
+    char *mem = (len < sizeof(small)) ? small : new char[len + 1];
+    memcpy(mem, begin, len);
+    mem[len] = 0;
+    std::string s = mem;
+    if (mem != small)
+      delete[] mem;
+    return s;
+  }
+
+  std::string copy_heap_short(const char *begin, const char *end)      // must be reported: no room for the terminator
+  {
+    char *mem = new char[end - begin];
+    memcpy(mem, begin, end - begin);
+    mem[end - begin] = 0;
+    std::string s = mem;
+    delete[] mem;
+    return s;
   }
 }  // namespace rkverif_c16
